@@ -148,11 +148,10 @@ var valueKinds = []string{"number", "string", "symbol", "character", "list", "ve
 
 // valueFeats are the avoid-set features of the value mode.
 var valueFeats = map[string][]string{
-	"number":     {"long-float-digits"},
-	"symbol":     {"plain-symbol"},
-	"list":       {"symbol-in-list"},
-	"vector":     {"fill-pointer", "empty-vector"},
-	"hash-table": {"hash-value-unquoted", "hash-key-dropped"},
+	"number": {"long-float-digits"},
+	"symbol": {"plain-symbol"},
+	"list":   {"symbol-in-list"},
+	"vector": {"empty-vector"},
 }
 
 // genValue yields the source of an expression whose value is an object of
@@ -191,7 +190,7 @@ func genValue(r *rand.Rand, kind, feat string) string {
 		switch {
 		case feat == "empty-vector":
 			return fw.Pick(r, []string{"#()", "(make-array 0)", "(vector)"})
-		case feat == "fill-pointer":
+		case feat == "fill-pointer" || (feat == "" && r.IntN(5) == 0):
 			n := 2 + r.IntN(5)
 			return fmt.Sprintf("(make-array %d :fill-pointer %d :initial-contents '%s)", n, r.IntN(n), fixedList(r, n, true))
 		case feat == "plain-attrs":
@@ -228,54 +227,39 @@ func genValue(r *rand.Rand, kind, feat string) string {
 		return src + ")"
 	case "hash-table":
 		n := r.IntN(7)
-		if feat == "plain-attrs" {
-			// the order of the entries in a load form is the map's iteration
-			// order: a table with several entries has no stable text
-			n = r.IntN(2)
-		}
 		var b strings.Builder
 		b.WriteString("(let ((h (make-hash-table)))")
 		seen := map[string]bool{}
 		for i := 0; i < n; i++ {
 			var key string
-			switch r.IntN(4) {
+			switch r.IntN(5) {
 			case 0:
 				key = fmt.Sprint(r.IntN(50))
 			case 1:
 				key = litString(fw.Pick(r, words))
 			case 2:
 				key = "'" + fw.Pick(r, symNames)
+			case 3:
+				key = fw.Pick(r, []string{`#\a`, `#\Z`, `#\0`})
 			default:
 				key = fw.Pick(r, kwNames)
-			}
-			if feat == "hash-key-dropped" && i == 0 {
-				key = fw.Pick(r, []string{`#\a`, `#\Z`, `#\0`})
 			}
 			if seen[key] {
 				continue
 			}
 			seen[key] = true
 			var val string
-			if r.IntN(5) == 0 {
+			switch r.IntN(8) {
+			case 0:
 				val = vecLit(r, 1)
-			} else {
+			case 1:
+				val = "'" + fw.Pick(r, symNames)
+			case 2:
+				val = "'(" + fw.Pick(r, symNames) + " 2 \"s\")"
+			default:
 				val = genAtom(r)
 			}
-			if feat == "hash-value-unquoted" && i == 0 {
-				if r.IntN(2) == 0 {
-					val = "'" + fw.Pick(r, symNames)
-				} else {
-					val = "'(" + fw.Pick(r, symNames) + " 2)"
-				}
-			}
 			fmt.Fprintf(&b, " (setf (gethash %s h) %s)", key, val)
-		}
-		if (feat == "hash-key-dropped" || feat == "hash-value-unquoted") && n == 0 {
-			if feat == "hash-key-dropped" {
-				b.WriteString(` (setf (gethash #\a h) 1)`)
-			} else {
-				b.WriteString(` (setf (gethash 1 h) 'sym)`)
-			}
 		}
 		b.WriteString(" h)")
 		return b.String()
